@@ -333,6 +333,15 @@ Definition translate_fn (st : strategy) (sf cf : pixfmt) (cm : cmap)
 Definition recolour (sf : pixfmt) (ready : bool) (table_cm screen_cm : cmap) : cmap :=
   if tc sf || negb ready then table_cm else screen_cm.
 
+(* ... and whether it replaced cl->modifiedRegion by the whole screen (so that everything is re-sent with
+   the new colours) *)
+Definition recolour_marks_screen (sf : pixfmt) (ready : bool) : bool := negb (tc sf || negb ready).
+
+(* the flag bytes of a SetPixelFormat message: the handler stores (byte ? TRUE : FALSE); TRUE is -1, i.e.
+   255 in the uint8_t fields.  PF_EQ and the swap decisions compare the STORED bigEndian bytes with == / !=. *)
+Definition wire_flag (b : Z) : bool := negb (b =? 0).
+Definition stored_flag (f : bool) : Z := if f then 255 else 0.
+
 (* rfbInitServerFormat (main.c) on a little-endian host, as called by rfbNewFramebuffer(screen, fb, w, h,
    bitsPerSample, samplesPerPixel, bytesPerPixel): always true colour, host byte order *)
 Definition init_server_format (bytespp bps : Z) : pixfmt :=
